@@ -186,7 +186,8 @@ class AbstractAxis(AbstractHasMetadata):
         return self.values.dtype
 
     def is_numeric(self):
-        return is_numeric(self.values)
+        # use the axis' own dtype: on disk, `values` is a netCDF variable whose dtype is `str` for strings
+        return np.dtype(self.dtype).kind in ("i", "f")
 
 class AbstractAxes(object):
     _Axis = AbstractAxis
